@@ -334,6 +334,16 @@ def vec(*args):
     return concat(iters)
 
 
+
+def neg_numeric(other):
+    """Negation of the right operand of a subtraction: constants of an unsigned
+    integer type are converted first, because their negation wraps around."""
+
+    if isinstance(other, (np.ndarray, np.generic)) and other.dtype.kind == 'u':
+        other = other.astype(float)
+
+    return -other
+
 class Model:
     """
     The Model class creates an LP model object.
@@ -2345,7 +2355,7 @@ class Affine:
 
     def __sub__(self, other):
 
-        return self.__add__(-other)
+        return self.__add__(neg_numeric(other))
 
     def __rsub__(self, other):
 
@@ -2506,7 +2516,7 @@ class Convex:
 
     def __sub__(self, other):
 
-        return self.__add__(-other)
+        return self.__add__(neg_numeric(other))
 
     def __rsub__(self, other):
 
@@ -2666,7 +2676,7 @@ class PiecewiseConvex:
 
     def __sub__(self, other):
 
-        return self.__add__(-other)
+        return self.__add__(neg_numeric(other))
 
     def __rsub__(self, other):
 
@@ -2954,7 +2964,7 @@ class RoAffine:
 
     def __sub__(self, other):
 
-        return self.__add__(-other)
+        return self.__add__(neg_numeric(other))
 
     def __rsub__(self, other):
 
@@ -4702,7 +4712,7 @@ class ExpPiecewiseConvex(PiecewiseConvex):
 
     def __sub__(self, other):
 
-        return self.__add__(-other)
+        return self.__add__(neg_numeric(other))
 
     def __rsub__(self, other):
 
@@ -4863,7 +4873,7 @@ class DecRoAffine(RoAffine):
 
     def __sub__(self, other):
 
-        return self.__add__(-other)
+        return self.__add__(neg_numeric(other))
 
     def __mul__(self, other):
 
